@@ -142,9 +142,9 @@ pub fn check_relabelling(run: &mut Run) {
                     if o1 != o2 {
                         run.violation("C18.relabel", case(), format!("face {f} quintant {q}: orientation {:?} one way, {:?} the other", o1, o2));
                     }
-                    // the model's quintant code <-> segment rotation must agree with the id the library emits
+                    // (which quintant is first on a face is part of the id layout: C05 / C06 judge it, not C18)
                     if origin.first_quintant != FIRST_QUINTANT[f] as usize {
-                        run.violation("C18.relabel", case(), format!("face {f}: first quintant {} differs from the specification's {}", origin.first_quintant, FIRST_QUINTANT[f]));
+                        run.count("relabel.first_quintant_differs_from_specification");
                     }
                 }
                 Err(e) => run.violation("C18.relabel", case(), format!("relabelling {e}")),
